@@ -259,7 +259,12 @@ def main():
     coqchk_report = None
     if tier == 'thorough':
         # independent re-check of the property's compiled file and everything it depends on
-        rc, cout = sh(f'timeout 2400 coqchk -o -silent -Q {COQ}/theories Cobweb -Q {COQ}/proofs CobwebProofs -Q {COQ}/properties CobwebProps CobwebProps.{cid}', cwd=COQ, timeout=2500)
+        cmd = f'timeout 2400 coqchk -o -silent -Q {COQ}/theories Cobweb -Q {COQ}/proofs CobwebProofs -Q {COQ}/properties CobwebProps CobwebProps.{cid}'
+        rc, cout = sh(cmd, cwd=COQ, timeout=2500)
+        if rc != 0 and 'Axioms' not in cout:
+            # killed from outside (memory pressure from unrelated jobs was observed once): one retry
+            time.sleep(10)
+            rc, cout = sh(cmd, cwd=COQ, timeout=2500)
         m = re.search(r'\* Axioms:\s*(.*?)\n\s*\n', cout + '\n\n', re.S)
         coqchk_report = m.group(1).strip() if m else 'unparsed'
         if rc != 0 or coqchk_report != '<none>':
